@@ -14,6 +14,7 @@ import (
 	"github.com/pingcap/kvproto/pkg/pdpb"
 	"github.com/tikv/pd/pkg/verifshim/sched"
 	"github.com/tikv/pd/pkg/verifshim/vclock"
+	"github.com/tikv/pd/server/tso"
 	"verif/checks/srvh"
 	"verif/engine/explore"
 	"verif/engine/fakeetcd"
@@ -38,13 +39,21 @@ type world struct {
 	present  bool
 	campaigns int
 	ten      map[int]tenure
+	recOwner string       // value of the leader record according to the commits seen
+	inDelete map[int]bool // member is inside DeleteLeaderKey (delete first, lease reset afterwards)
+	// observer (sched.OnPoint): one sample per scheduling point
+	alloc   map[int]tso.Allocator
+	mval    map[int]string
+	samples []map[int]bool      // per point: does member id hold the leadership (owns the record or unexpired, unresigned tenure)
+	lastTSO map[int][2]int64    // in-memory TSO of every member at the previous point
+	gen     map[int]map[int]int // thread -> member -> index of the sample that closed the segment in which the thread last moved that member's TSO
 }
 
 var guarded = []string{"/timestamp", "/alloc_id", "/member/", "/dc-location/"}
 
 func newWorld(n int) *world {
 	vclock.Enable(vclock.Epoch)
-	w := &world{st: fakeetcd.New(), srvs: map[int]*srvh.Srv{}, cur: map[int]int{}, ten: map[int]tenure{}}
+	w := &world{st: fakeetcd.New(), srvs: map[int]*srvh.Srv{}, cur: map[int]int{}, ten: map[int]tenure{}, inDelete: map[int]bool{}}
 	srvh.SeedClusterID(w.st)
 	for i := 1; i <= n; i++ {
 		s, err := srvh.New(w.st, i, nil)
@@ -53,12 +62,31 @@ func newWorld(n int) *world {
 		}
 		w.srvs[i] = s
 	}
+	w.alloc, w.mval, w.lastTSO, w.gen = map[int]tso.Allocator{}, map[int]string{}, map[int][2]int64{}, map[int]map[int]int{}
+	for id, sv := range w.srvs {
+		if al, err := sv.GetTSOAllocatorManager().GetAllocator(tso.GlobalDCLocation); err == nil {
+			w.alloc[id] = al
+		}
+		w.mval[id] = sv.VerifMember().MemberValue()
+	}
+	sched.OnPoint = w.sample
 	w.st.OnCommit = func(evs []fakeetcd.Event) {
 		for _, e := range evs {
 			if e.Key == leaderKey {
 				if e.Delete {
 					w.present = false
+					// the record disappeared through the lease (revoked by the member's own
+					// resign, or expired): from this instant the former owner's tenure is over.
+					// (DeleteLeaderKey deletes first and resets the lease afterwards: there the
+					// tenure ends when the call returns.)
+					for id, sv := range w.srvs {
+						if sv.VerifMember().MemberValue() == w.recOwner && !w.inDelete[id] {
+							w.ten[id] = tenure{}
+						}
+					}
+					w.recOwner = ""
 				} else {
+					w.recOwner = e.Value
 					if w.present {
 						w.addBad("campaign-over-live-leader", fmt.Sprintf("a leader record was written by %s while a live leader record existed", e.Who))
 					}
@@ -149,6 +177,50 @@ func (w *world) ownedSince(s *srvh.Srv, from int, ownedAtFrom bool) bool {
 	return false
 }
 
+// sample is the observer: called at every scheduling point on the thread that reached it
+// (that thread executed the segment that ends here). No locks, no etcd access.
+func (w *world) sample(t *sched.Thread) {
+	idx := len(w.samples)
+	held := map[int]bool{}
+	for id := range w.srvs {
+		held[id] = (w.recOwner != "" && w.recOwner == w.mval[id]) || w.holds(id)
+		al := w.alloc[id]
+		if al == nil {
+			continue
+		}
+		ph, lg := tso.VerifPeekTSO(al)
+		cur := [2]int64{ph.UnixNano(), lg}
+		if cur != w.lastTSO[id] {
+			w.lastTSO[id] = cur
+			if w.gen[t.ID] == nil {
+				w.gen[t.ID] = map[int]int{}
+			}
+			w.gen[t.ID][id] = idx
+		}
+	}
+	w.samples = append(w.samples, held)
+}
+
+// heldSinceGeneration: did member id hold the leadership at any sampled instant from the
+// start of the segment in which thread t last moved the member's TSO?
+func (w *world) heldSinceGeneration(t *sched.Thread, id int) (bool, bool) {
+	w.sample(t)
+	g, ok := w.gen[t.ID][id]
+	if !ok {
+		return true, false
+	}
+	from := g - 1
+	if from < 0 {
+		from = 0
+	}
+	for j := from; j < len(w.samples); j++ {
+		if w.samples[j][id] {
+			return true, true
+		}
+	}
+	return false, true
+}
+
 func (w *world) act(id int) *srvh.Srv {
 	if t := sched.Cur(); t != nil {
 		w.cur[t.ID] = id
@@ -160,9 +232,18 @@ func (w *world) tso(id int) {
 	s := w.act(id)
 	r := served{who: fmt.Sprintf("pd%d", id), kind: "tso", ownInv: w.owns(s) || w.holds(id)}
 	from := len(w.st.Log)
+	t := sched.Cur()
+	if t != nil {
+		delete(w.gen[t.ID], id)
+	}
 	_, err := s.GetTSOAllocatorManager().HandleTSORequest("", 1)
 	r.ok = err == nil
 	r.ownRet = w.ownedSince(s, from, r.ownInv)
+	if t != nil && r.ok {
+		if held, seen := w.heldSinceGeneration(t, id); seen && !held {
+			w.addBad("timestamp-generated-after-leadership-ended", fmt.Sprintf("pd%d returned a timestamp that it generated at an instant from which on it neither owned the leader record nor held an unexpired, unresigned lease", id))
+		}
+	}
 	w.out = append(w.out, r)
 }
 
@@ -196,7 +277,9 @@ func (w *world) resign(id int) {
 	w.ten[id] = tenure{}
 }
 func (w *world) deleteKey(id int) {
+	w.inDelete[id] = true
 	_ = w.act(id).VerifMember().GetLeadership().DeleteLeaderKey()
+	w.inDelete[id] = false
 	w.ten[id] = tenure{}
 }
 func (w *world) updateTSO(id int) {
@@ -207,6 +290,15 @@ func (w *world) updateTSO(id int) {
 func (w *world) priority(id int) {
 	s := w.act(id)
 	_ = s.VerifMember().SetMemberLeaderPriority(uint64(id), 5)
+}
+func (w *world) setTSO(id int, ahead time.Duration) {
+	s := w.act(id)
+	if al := w.alloc[id]; al != nil {
+		old := sched.SetMember(id)
+		_ = al.SetTSO(uint64(vclock.Base().Add(ahead).UnixNano()/int64(time.Millisecond)) << 18)
+		sched.SetMember(old)
+	}
+	_ = s
 }
 func (w *world) rebase(id int) { _ = w.act(id).VerifIDAllocator().Rebase() }
 func (w *world) expire() {
@@ -255,6 +347,15 @@ func main() {
 			func() { w.expire() },
 		}
 	}
+	expiryReset := func(w *world) ([]string, []func()) {
+		// a manual reset keeps the TSO lock across its window save: requests queue up behind it
+		return []string{"pd1-admin", "pd1-req", "pd2", "env"}, []func(){
+			func() { w.setTSO(1, 10*time.Second) },
+			func() { w.tso(1) },
+			func() { w.campaign(2); w.tso(2) },
+			func() { w.expire() },
+		}
+	}
 	resign := func(w *world) ([]string, []func()) {
 		return []string{"pd1", "pd1-req", "pd2"}, []func(){
 			func() { w.resign(1); w.campaign(1); w.priority(1) },
@@ -283,10 +384,12 @@ func main() {
 		ExtraReplay: kaReplay,
 		Scenarios: []*explore.Scenario{
 			scenario("expiry", 2, 2, "quick", expiry),
+			scenario("expiry+reset", 2, 2, "quick", expiryReset),
 			scenario("resign", 2, 2, "quick", resign),
 			scenario("delete-leader-key", 2, 2, "quick", delKey),
 			scenario("three-contenders", 3, 1, "quick", three),
 			scenario("expiry@3", 2, 3, "thorough", expiry),
+			scenario("expiry+reset@3", 2, 3, "thorough", expiryReset),
 			scenario("resign@3", 2, 3, "thorough", resign),
 			scenario("delete-leader-key@3", 2, 3, "thorough", delKey),
 			scenario("three-contenders@2", 3, 2, "thorough", three),
